@@ -22,6 +22,11 @@ type Obs struct {
 
 	// wiring after Run: holder -> field -> target ids. "?": object unknown to the harness.
 	Points map[string]map[string][]string `json:"points,omitempty"`
+	// InitLookups: holder -> target id -> what App.GetComponentByName returned when the holder
+	// looked the target up from inside its own initialization callback. Such a lookup is not
+	// an injection point (the container cannot know who keeps the result); it is recorded
+	// because it closes dependency cycles during initialization.
+	InitLookups map[string]map[string][]string `json:"initLookups,omitempty"`
 	// AtBefore: wiring snapshot taken at the first before-initialization callback of a component.
 	AtBefore map[string]map[string][]string `json:"atBefore,omitempty"`
 	// CfgAtBefore / Cfg: configuration field values (formatted) at that moment / after Run.
